@@ -133,8 +133,19 @@ def generate(seed, tier="quick"):
             val = ["list", [val]]
         f["sites"]["sk"] = {"op": krng.choice(["eq", "eq", "in"]), "place": "direct", "arg": None, "prev": None}
         f["tests"].append({"name": "test_setkeys", "events": [{"t": "cmp", "eid": "esk", "site": "sk", "vals": [val], "style": "rec"}]})
+    driver = "plugin" if sub(seed, "driver").random() < 0.12 else "inline"
+    irng = sub(seed, "imports")
+    if driver == "plugin" and irng.random() < 0.7:
+        # one file needs both imports the tool can add (external, HasRepr): the whole rewritten file is compared between hash seeds
+        from . import c13
+
+        f = prog["files"][0]
+        f["sites"]["xa"] = {"op": "eq", "place": "direct", "arg": None, "prev": None}
+        f["sites"]["nr"] = {"op": "eq", "place": "direct", "arg": None, "prev": None}
+        f["tests"].append({"name": "test_imports", "events": [{"t": "cmp", "eid": "exa", "site": "xa", "vals": [c13.wrap(irng, c13.ext_value(irng))], "style": "rec"},
+                                                              {"t": "cmp", "eid": "enr", "site": "nr", "vals": [["norepr", irng.randint(1, 5)]], "style": "rec"}]})
     return {"program": prog, "twins": twins, "flags": sub(seed, "flags").choice(["create,fix", "create,fix,update", "create,fix,trim,update"]),
-            "driver": "plugin" if sub(seed, "driver").random() < 0.1 else "inline", "dict_order": sub(seed, "do").randint(0, 10**6)}
+            "driver": driver, "dict_order": sub(seed, "do").randint(0, 10**6)}
 
 
 def hash_sensitive(prog):
